@@ -104,6 +104,8 @@ pub struct SaleCfg {
     pub wl_stage_limit: Option<u32>,
     pub wl_members: Vec<&'static str>,
     pub wl_flex_count: u32,
+    /// requested collection start_trading_time at creation (absolute nanoseconds); None = not given
+    pub start_trading: Option<u64>,
 }
 impl SaleCfg {
     pub fn basic(variant: usize) -> Self {
@@ -123,6 +125,7 @@ impl SaleCfg {
             wl_stage_limit: None,
             wl_members: vec!["buyer1", "buyer2"],
             wl_flex_count: 2,
+            start_trading: None,
         }
     }
 }
@@ -145,6 +148,10 @@ pub struct SaleWorld {
     /// Merkle mint arguments of the step being run (stage, proof hashes, allocation):
     /// consulted by `wl_view` to ask the whitelist the proof-form HasMember question
     pub proof_ctx: Option<(Option<u32>, Vec<String>, Option<u32>)>,
+    /// changes of tracked balances / supply caused by activity that is not a minter step
+    /// (the creation fee of a whitelist instantiated for Op::SetWhitelist): subtracted from
+    /// the balances shown to the model, which only follows the minter's own money flows
+    pub ext_drift: BTreeMap<(String, String), i128>,
 }
 
 const S: u64 = 1_000_000_000;
@@ -246,6 +253,7 @@ impl SaleWorld {
             initial_supply: BTreeMap::new(),
             wl_code,
             proof_ctx: None,
+            ext_drift: BTreeMap::new(),
         };
         let denom = cfg.fp.denom.clone();
         if cfg.wl != WlKind::None {
@@ -266,7 +274,7 @@ impl SaleWorld {
                 "code_id": sg721_code, "name": "Collection", "symbol": "COL",
                 "info": {"creator": CREATOR, "description": "d", "image": "https://example.com/image.png",
                          "external_link": "https://example.com/external.html", "explicit_content": false,
-                         "start_trading_time": null,
+                         "start_trading_time": cfg.start_trading.map(ts),
                          "royalty_info": {"payment_address": CREATOR, "share": "0.1"}}
             }}});
         let fee = if cfg.fp.creation_fee > 0 { vec![coin(cfg.fp.creation_fee, NATIVE)] } else { vec![] };
@@ -318,8 +326,13 @@ impl SaleWorld {
             .iter()
             .enumerate()
             .map(|(i, (s, e))| {
-                json!({"name": format!("stage{}", i), "start_time": ts(now + s * S), "end_time": ts(now + e * S),
-                       "mint_price": coinv(price, denom), "per_address_limit": limit, "mint_count_limit": stage_limit})
+                let mut st = json!({"name": format!("stage{}", i), "start_time": ts(now + s * S), "end_time": ts(now + e * S),
+                       "mint_price": coinv(price, denom), "mint_count_limit": stage_limit});
+                // tiered-whitelist-flex stages have no per_address_limit (the member's own count is the limit)
+                if kind != WlKind::TieredFlex {
+                    st["per_address_limit"] = json!(limit);
+                }
+                st
             })
             .collect();
         let (code, msg) = match kind {
@@ -602,12 +615,14 @@ impl SaleWorld {
             for d in [NATIVE, IBC] {
                 let id = self.addrs.id(&a);
                 let did = self.denoms.id(d);
-                items.push(format!("({}, {}, {})", id, did, chain::balance(&self.app, &a, d)));
+                let drift = self.ext_drift.get(&(a.clone(), d.to_string())).copied().unwrap_or(0);
+                items.push(format!("({}, {}, {})", id, did, chain::balance(&self.app, &a, d) as i128 - drift));
             }
         }
         for d in [NATIVE, IBC] {
             let did = self.denoms.id(d);
-            let burned = self.initial_supply[d] - chain::supply(&self.app, d);
+            let drift = self.ext_drift.get(&("#supply".to_string(), d.to_string())).copied().unwrap_or(0);
+            let burned = (self.initial_supply[d] - chain::supply(&self.app, d)) as i128 + drift;
             items.push(format!("(5, {}, {})", did, burned));
         }
         coq_list(&items)
@@ -781,7 +796,7 @@ impl SaleWorld {
         let fp = self.fp_coq();
         let wv = self.cur_wl_view(&who);
         let before_digest = chain::storage_digest(&self.app, &self.minter);
-        let before_bal = self.balances_raw();
+        let mut before_bal = self.balances_raw();
         let before_tokens = self.num_tokens_collection();
         let sender_id = self.addrs.id(&who);
         let minter_id = self.addrs.id(self.minter.as_str());
@@ -834,6 +849,15 @@ impl SaleWorld {
                 let lim = self.cfg.wl_limit;
                 match self.make_whitelist(k, &[(*start_in, *end_in)], *price, denom, lim, None) {
                     Ok(a) => {
+                        // the whitelist's creation fee is paid outside the minter step
+                        let after_wl = self.balances_raw();
+                        for (k2, v1) in &after_wl {
+                            let v0 = before_bal.get(k2).copied().unwrap_or(0);
+                            if *v1 != v0 {
+                                *self.ext_drift.entry(k2.clone()).or_insert(0) += *v1 as i128 - v0 as i128;
+                            }
+                        }
+                        before_bal = after_wl;
                         new_view = self.wl_view(&a, &who);
                         let r = self.exec_minter(&who, &E::SetWhitelist { whitelist: a.to_string() }, &funds);
                         if r.is_ok() {
